@@ -159,7 +159,7 @@ struct SignEvent {
 }
 
 fn b64(b: &[u8]) -> String {
-  identity_jose::jwu::encode_b64(b)
+  crate::core::b64::encode(b)
 }
 
 fn new_kms_signer(n: usize, k256: bool) -> Signer {
